@@ -719,6 +719,7 @@ class Loops:
 
     def check_inv(self, it, spec, when, extra_env, label):
         extra_env = dict(it.env, **extra_env)
+        extra_env.update(getattr(it, 'ghost_param_env', None) or {})
         if getattr(it, 'entry_old', None) is not None:
             extra_env['old!heap'] = it.entry_old
         for nme, text in spec['invariant'].items():
@@ -726,6 +727,7 @@ class Loops:
 
     def assume_inv(self, it, spec, extra_env):
         extra_env = dict(it.env, **extra_env)
+        extra_env.update(getattr(it, 'ghost_param_env', None) or {})
         if getattr(it, 'entry_old', None) is not None:
             extra_env['old!heap'] = it.entry_old
         for nme, text in spec['invariant'].items():
